@@ -19,6 +19,10 @@ func init() {
 		runC13)
 }
 
+// evalPkg: the package whose pure one-line helpers evalExpr may unfold (set by analyseInterleave).
+var evalPkg *packages.Package
+var evalDepth int
+
 // evalIntExpr evaluates an integer/boolean expression over one variable (by object identity).
 func evalExpr(info *types.Info, e ast.Expr, v types.Object, val int64) (int64, bool, bool) { // (int value, bool value, ok)
 	switch x := e.(type) {
@@ -44,6 +48,46 @@ func evalExpr(info *types.Info, e ast.Expr, v types.Object, val int64) (int64, b
 				}
 			}
 		}
+	case *ast.CallExpr:
+		// a pure predicate/function of the same package: func f(i int) T { return <expr in i> }
+		if evalPkg == nil || len(x.Args) != 1 {
+			return 0, false, false
+		}
+		id, isId := x.Fun.(*ast.Ident)
+		if !isId {
+			return 0, false, false
+		}
+		fobj, isFn := info.Uses[id].(*types.Func)
+		if !isFn {
+			return 0, false, false
+		}
+		arg, _, okArg := evalExpr(info, x.Args[0], v, val)
+		if !okArg {
+			return 0, false, false
+		}
+		for _, file := range evalPkg.Syntax {
+			for _, d := range file.Decls {
+				fd, isFD := d.(*ast.FuncDecl)
+				if !isFD || fd.Body == nil || info.Defs[fd.Name] != types.Object(fobj) {
+					continue
+				}
+				if len(fd.Body.List) != 1 || fd.Type.Params == nil || len(fd.Type.Params.List) != 1 || len(fd.Type.Params.List[0].Names) != 1 {
+					return 0, false, false
+				}
+				ret, isRet := fd.Body.List[0].(*ast.ReturnStmt)
+				if !isRet || len(ret.Results) != 1 {
+					return 0, false, false
+				}
+				pobj := info.Defs[fd.Type.Params.List[0].Names[0]]
+				evalDepth++
+				defer func() { evalDepth-- }()
+				if evalDepth > 3 {
+					return 0, false, false
+				}
+				return evalExpr(info, ret.Results[0], pobj, arg)
+			}
+		}
+		return 0, false, false
 	case *ast.UnaryExpr:
 		a, b, ok := evalExpr(info, x.X, v, val)
 		if !ok {
@@ -126,6 +170,7 @@ func objsIn(info *types.Info, stmts []ast.Stmt) map[types.Object]bool {
 }
 
 func analyseInterleave(p *packages.Package, fd *ast.FuncDecl) interleave {
+	evalPkg = p
 	res := interleave{caseObjs: map[types.Object]bool{}, defObjs: map[types.Object]bool{}}
 	info := p.TypesInfo
 	var loopVar types.Object
